@@ -235,6 +235,13 @@ impl CodeAndPowerSquelch {
         self.power_history.push_back(pwr >= self.power_close);
         self.symbol_counter += 1;
 
+        #[cfg(feature = "verif-hooks")]
+        super::verif::trace_squelch(
+            input[1] >= 0.0f32,
+            pwr >= self.power_open,
+            pwr >= self.power_close,
+        );
+
         if !self.sample_history.is_full() {
             // wait for buffer to fill
             return SquelchState::NoCarrier;
